@@ -8,6 +8,7 @@ with `qubits = [q] | [q, -1] | [q1, q2]`.
 
 * `{"op":"optimize","levels":[…],"n":N,"items":[…]}` → `{"ok":[r_level, …]}` with
   `r = {"ok":[[matrix, qubits], …]} | {"err":"IndexError"|…}` — `Optimizer(level, items, list(range(N))).optimize()`
+  (an optional `"nq"` is `len(qubit_list)` when it differs from `N`)
 * `{"op":"binary_statevector","n":N,"items":[…],"psi":[…]}` → `{"ok":[[re,im],…]} | {"err":…}` —
   `BinaryBackend(N).statevector(items, psi)` -/
 namespace QG.Driver
@@ -54,12 +55,15 @@ def jItem : Item GMat GMat → Json
 
 def handleOptimize (j : Json) : Except String Json := do
   let n ← getNat j "n"
+  let nq := match getNat j "nq" with
+    | .ok v => v
+    | .error _ => n
   let lv ← getArr j "levels"
   let levels ← lv.toList.mapM fun l => l.getInt?
   let items ← getArr j "items"
   let raw ← items.toList.mapM getRaw
   let out := levels.map fun level =>
-    match optimize (listOps gint) level n raw with
+    match optimize (listOps gint) level nq raw with
     | .error e => jErr e.name
     | .ok l => jOk (Json.arr (l.toArray.map jItem))
   pure (jOk (Json.arr out.toArray))
